@@ -34,7 +34,7 @@ def plan(tier):
     return {"cases": 3000 if tier == "quick" else 100000, "shards": 16, "case_timeout": 60, "shard_timeout": 3000,
             "min_nontrivial": 100,
             "min_counters": {"facts_asserted": 8000, "derived_facts_checked": 8000, "permutation_cases": 500,
-                             "field:sub_org_of": 500, "field:head_of": 300, "field:part_of": 300, "field:under": 100, "field:chairs": 50, "field:leads": 40, "form:ctor": 200, "form:assign_keep": 30}}
+                             "field:sub_org_of": 500, "field:head_of": 300, "field:part_of": 300, "field:under": 100, "field:chairs": 50, "field:leads": 40, "field:runs": 60, "form:ctor": 200, "form:assign_keep": 30}}
 
 
 def setup(ctx):
@@ -51,7 +51,7 @@ FIELD_KIND = {"works_for": ("person", "org", "single"), "head_of": ("chief", "or
               "sub_org_of": ("org", "org", "list"), "part_of": ("org", "org", "list"), "has_part": ("org", "org", "list"),
               "wholly_owned_by": ("org", "org", "list"), "under": ("unit", "org", "list"),
               "chairs": ("chair", "org", "single"), "attends": ("delegate", "org", "list"),
-              "leads": ("convener", "org", "list")}
+              "leads": ("convener", "org", "list"), "runs": ("boss", "org", "single")}
 
 
 def gen_population(rng):
@@ -65,6 +65,8 @@ def gen_population(rng):
         pop.append([f"c{i}", "Chief", rng.choice(persons)])
     for i in range(rng.choice([0, 0, 1, 2])):
         pop.append([f"u{i}", "Unit", None])
+    for i in range(rng.choice([0, 0, 1, 2])):
+        pop.append([f"b{i}", "Boss", None])
     if rng.random() < 0.3:
         # a role whose super-property lives on a subclass of the declared role taker type only
         visitors = []
@@ -85,6 +87,8 @@ def names_of(pop, kind):
         return [p[0] for p in pop if p[0].startswith("c")]
     if kind == "unit":
         return [p[0] for p in pop if p[0].startswith("u")]
+    if kind == "boss":
+        return [p[0] for p in pop if p[1] == "Boss"]
     if kind == "chair":
         return [p[0] for p in pop if p[0].startswith("h")]
     if kind == "delegate":
